@@ -86,6 +86,25 @@ type c17Side struct {
 	Fields   obj     `json:"fields,omitempty"`
 }
 
+var c17Prev []byte // the compiled form of the previous case
+
+// c17Other is the compiled form of a fixed, fairly large program unrelated to every case
+var c17Other = func() []byte {
+	src := "def other(a, b = 'default value of a parameter', *rest, k = 3.25, **kw):\n    'docstring of another program'\n    return [a, b, rest, k, kw, 1 << 80, b'bytes constant', 'string constant %d' % 7]\nz = other(1)\n"
+	for i := 0; i < 40; i++ {
+		src += fmt.Sprintf("v%d = ['filler string number %d', %d.5, %d << 70]\n", i, i, i, i)
+	}
+	_, prog, err := starlark.SourceProgramOptions(&syntax.FileOptions{}, "other.star", src, func(string) bool { return false })
+	if err != nil {
+		panic(err)
+	}
+	var buf bytes.Buffer
+	if err := prog.Write(&buf); err != nil {
+		panic(err)
+	}
+	return buf.Bytes()
+}()
+
 type c17Rec struct {
 	ID     int      `json:"id"`
 	Static bool     `json:"static"` // source does not compile: outside the quantifier
@@ -438,6 +457,13 @@ func runC17Case(c *c17Case) (rec c17Rec) {
 		rec.DecErr = err.Error()
 		return
 	}
+	// a decoded program owns what it decoded: reading OTHER compiled programs afterwards (the previous case's file,
+	// then this one's again) must leave Q untouched
+	if c17Prev != nil {
+		starlark.CompiledProgram(bytes.NewReader(c17Prev))
+	}
+	starlark.CompiledProgram(bytes.NewReader(c17Other))
+	c17Prev = append([]byte{}, b1.Bytes()...)
 	if err := Q.Write(&b2); err != nil {
 		rec.DecErr = "rewrite: " + err.Error()
 		return
